@@ -173,11 +173,17 @@ func c07(args []string) {
 			chain = append(chain, r.genSequence(kind))
 		}
 		S := r.genSequence(r.pick(0, 0, 1, 1, 2, 3, 4))
+		pooled := r.chance(1, 8) // a pooled decoder whose previous reader gave nothing: every entry point fails before any byte is read
+		if pooled {
+			chain = nil
+		}
 		var all []byte
 		for _, s := range chain {
 			all = append(all, s...)
 		}
-		all = append(all, S...)
+		if !pooled {
+			all = append(all, S...)
+		}
 		run := &apiRunner{reader: bytes.NewReader(all)}
 		run.dec = decoder.New(run.reader, decOpts(checksum, expand)...)
 		var ops, obs, human []string
@@ -186,7 +192,12 @@ func c07(args []string) {
 			ops, obs, human = append(ops, o), append(obs, b), append(human, op)
 			return b
 		}
-		if r.chance(1, 6) { // integrity check first, then rewind as documented
+		if pooled {
+			for j := 0; j < 1+r.intn(2); j++ {
+				do(r.pickStr("decode", "discard", "peekheader", "peekfileid", "next", "integrity"), nil)
+			}
+			stat("history_pooled_empty_reader", 1)
+		} else if r.chance(1, 6) { // integrity check first, then rewind as documented
 			do("integrity", nil)
 			do("seekstart", nil)
 		}
@@ -219,7 +230,7 @@ func c07(args []string) {
 			}
 		}
 		var last string
-		if failed || r.chance(1, 5) { // move the object onto a new reader holding S only
+		if failed || pooled || r.chance(1, 5) { // move the object onto a new reader holding S only
 			do("reset", S)
 			last = do("decode", nil)
 		} else {
@@ -248,6 +259,9 @@ func c07(args []string) {
 			js := map[string]any{"kind": "history-dependence", "history": human, "chain_lens": lens(chain), "S": fmt.Sprintf("%x", S), "all": fmt.Sprintf("%x", all),
 				"fresh": trunc(want, 300), "after_history": trunc(last, 300), "checksum": checksum, "expand": expand}
 			switch {
+			case pooled:
+				js["kind"] = "history-dependence (decoder whose previous reader was empty, then Reset)"
+				emitJSON("FAIL", "", js)
 			case usesStaleDefinitions(human, failed):
 				emitJSON("KNOWN", "stale_definitions", js)
 			case containsStr(human, "integrity") && strings.Contains(obs[0], "Some"):
